@@ -1,7 +1,7 @@
 #!/usr/bin/env python3
 """Build one Verus file from /repo/src + the contract overlay.
 
-usage: extract.py --repo /repo --contracts DIR --out FILE [--arch x86_64|aarch64] [--report FILE]
+usage: extract.py --repo /repo --contracts DIR --out FILE [--arch x86_64|aarch64] [--report FILE] [--write-baseline [FILE]]
 
 The output is the crate's own source text (tests, docs and attributes removed),
 nested as modules in one file, rewritten only by the closed rule list R0-R13
@@ -461,9 +461,14 @@ class Rules:
         return ed.apply()
 
     def r10_simd(self, fname, src):
-        """drop leaf kernels that mention SIMD types; blank the body of fns that call them."""
+        """drop leaf kernels that mention SIMD types; blank the body of fns that call them.
+        (Used for the Neon engine: there is no model of the Neon intrinsics.)
+        `#[target_feature(enable = "neon")]` becomes a comment: Verus runs rustc for the host target, which rejects a feature
+        name of another architecture. The attribute only selects code generation; what it demands of the caller is stated by
+        the overlay as `requires cpu_has_neon()` on exactly these functions (C14), as for the x86 entry points."""
         src = re.sub(r'#\[cfg\(target_arch = "x86"\)\]\s*use std::arch::x86::\*;\s*', '', src)
         src = re.sub(r'use std::arch::(x86_64|aarch64)::\*;\s*', '', src)
+        src = self.regex_rule('R10', fname, src, r'#\[target_feature\(enable = "neon"\)\]', '// R10: #[target_feature(enable = "neon")]')
         items = rsx.parse_items(src)
         ed = Edits(src)
         dropped = set()
@@ -515,8 +520,23 @@ class Overlay:
         <text>
     @@ module <module path>
         <items appended to that module>
+    @@ inside <trait-or-impl path>
+        <items inserted before the closing brace of that trait / impl>
+
+    Architecture views (R13 selects the x86_64 or the aarch64 items of the crate; the overlay follows):
+      * an entry whose key lies in the module of a source file that ARCH_FILES excludes from the current view
+        (`engine::engine_avx2::..`, `engine::engine_ssse3::..` in the aarch64 view, `engine::engine_neon::..` in the x86_64
+        view) is skipped: it is not spliced, and it is not a lost anchor (the function is absent by construction, not edited);
+      * `@arch x86_64` / `@arch aarch64` as a line of an `@@ fn` / `@@ module` / `@@ inside` entry restricts that entry to the
+        named view(s); this is for entries of modules both views share (e.g. `engine::engine_default`), where the same key
+        needs a different contract per view;
+      * an `@@` header may list several keys separated by blanks: the entry is applied to each of them (one text for
+        textually identical functions of different engines); keys of the other view are skipped as above.
+    Skipped entries are listed in the report (`skipped_other_arch`).
     """
-    def __init__(self):
+    def __init__(self, arch='x86_64'):
+        self.arch = arch
+        self.skipped = []   # entries that belong to the other architecture's view
         self.fns = {}       # key -> dict
         self.modules = defaultdict(list)
         self.private = set()   # structs whose fields keep their visibility (type invariants)
@@ -544,14 +564,53 @@ class Overlay:
             merged['hints'] += e['hints']
         return merged
 
+    def other_view(self, key):
+        """the key lies in the module of a source file that ARCH_FILES excludes from this view"""
+        for fname, modpath in FILES:
+            if ARCH_FILES.get(fname, self.arch) != self.arch:
+                p = '::'.join(modpath)
+                if key == p or key.startswith(p + '::'):
+                    return True
+        return False
+
+    def view_lines(self, path):
+        """pre-pass: the overlay text as seen by the current view. Entries (an `@@` header and the lines up to the next header)
+        of the other view are left out - by `@arch` or by their key's module -, `@arch` lines are removed, and a header
+        with several keys becomes one entry per key."""
+        blocks = [[None, []]]    # [header, body lines]; the first block is the text before the first header
+        for line in open(path).read().split('\n'):
+            if line.startswith('@@ '):
+                blocks.append([line, []])
+            else:
+                blocks[-1][1].append(line)
+        out = list(blocks[0][1])
+        for header, body in blocks[1:]:
+            kind, _, rest = header[3:].partition(' ')
+            if kind == 'inside':
+                for line in body:
+                    if re.search(r'\bspec fn \w+\(\s*\)', line):
+                        # Verus 0.2026.09.13 conflates zero-argument static trait spec fns across impls (unsound): refuse them
+                        # (checked for the entries of both views)
+                        raise ExtractError('overlay %s: zero-argument static trait spec fn is not allowed: %s' % (path, line.strip()))
+            archs = [a for line in body if line.startswith('@arch ') for a in line[6:].split()]
+            for a in archs:
+                if a not in set(ARCH_FILES.values()):
+                    raise ExtractError('overlay %s: unknown architecture in `@arch %s` (%s)' % (path, a, header))
+            body = [line for line in body if not line.startswith('@arch ')]
+            keys = rest.split() if kind in ('fn', 'module', 'inside') else [rest]
+            for key in keys:
+                if (archs and self.arch not in archs) or (kind in ('fn', 'module', 'inside') and self.other_view(key)):
+                    self.skipped.append('%s %s' % (kind, key))
+                    continue
+                out.append('@@ %s %s' % (kind, key))
+                out += body
+        return out
+
     def load(self, path):
-        in_inside = False
         cur = None
         sect = None
-        for raw in open(path).read().split('\n'):
+        for raw in self.view_lines(path):
             line = raw.rstrip('\n')
-            if line.startswith('@@ '):
-                in_inside = line.startswith('@@ inside ')
             if line.startswith('@@ fn '):
                 key = line[6:].strip()
                 cur = self.fns.setdefault(key, {'ret': None, 'attrs': [], 'spec': [], 'loops': {}, 'hints': [], 'src': path})
@@ -564,9 +623,6 @@ class Overlay:
                 self.private.add(line[11:].strip())
                 cur = None
                 sect = None
-            elif in_inside and re.search(r'\bspec fn \w+\(\s*\)', line):
-                # Verus 0.2026.09.13 conflates zero-argument static trait spec fns across impls (unsound): refuse them
-                raise ExtractError('overlay %s: zero-argument static trait spec fn is not allowed: %s' % (path, line.strip()))
             elif line.startswith('@@ module '):
                 key = line[10:].strip()
                 cur = None
@@ -719,8 +775,16 @@ def splice(fname, modpath, src, overlay, used, lost, opts=None, shapes=None):
 
 # ----------------------------------------------------------------------------
 
+def baseline_path(contracts, arch):
+    """the committed shapes (loop kinds, uncontracted functions) of one view: `baseline_shapes.json` is the x86_64 view's file
+    (its historical name), every other view has `baseline_shapes_<arch>.json`"""
+    return os.path.join(contracts, 'baseline_shapes.json' if arch == 'x86_64' else 'baseline_shapes_%s.json' % arch)
+
+
 def build(repo, contracts, arch, report, opts=None):
-    overlay = Overlay()
+    if arch not in set(ARCH_FILES.values()):
+        raise ExtractError('unknown --arch %s' % arch)
+    overlay = Overlay(arch)
     ovdir = os.path.join(contracts, 'overlay')
     if os.path.isdir(ovdir):
         for f in sorted(os.listdir(ovdir)):
@@ -730,9 +794,13 @@ def build(repo, contracts, arch, report, opts=None):
     used, lost = set(), []
     shapes = {'uncontracted': [], 'loop_kinds': {}}
     opts = dict(opts or {})
-    bpath = os.path.join(contracts, 'baseline_shapes.json')
+    bpath = baseline_path(contracts, arch)
     if os.path.exists(bpath):
-        opts['loop_kinds'] = json.load(open(bpath)).get('loop_kinds', {})
+        base = json.load(open(bpath))
+        # a file written before the views were separated has no `arch` entry: it is the x86_64 view's
+        if base.get('arch', 'x86_64') != arch:
+            raise ExtractError('%s was generated from the %s view, not from %s' % (bpath, base.get('arch', 'x86_64'), arch))
+        opts['loop_kinds'] = base.get('loop_kinds', {})
     tree = {'': {'text': '', 'subs': {}}}
     mods = {}   # tuple(modpath) -> text
     for fname, modpath in FILES:
@@ -758,6 +826,8 @@ def build(repo, contracts, arch, report, opts=None):
     report['lost_anchors'] = [{'key': k, 'what': w} for k, w in lost]
     report['contracts_spliced'] = sorted(k for k in used if isinstance(k, str))
     report['shapes'] = shapes
+    report['arch'] = arch
+    report['skipped_other_arch'] = sorted(overlay.skipped)
 
     def emit(path):
         text = mods.get(tuple(path), '')
@@ -788,7 +858,9 @@ def main():
     ap.add_argument('--report')
     ap.add_argument('--drop', default='', help='comma list of function keys whose proof annotations are left out (body unverified, contract kept)')
     ap.add_argument('--drop-contract', default='', help='comma list of function keys whose whole overlay entry is left out')
-    ap.add_argument('--write-baseline', help='write loop kinds / uncontracted functions of this tree to the given file')
+    ap.add_argument('--write-baseline', nargs='?', const='', metavar='FILE',
+                    help='write loop kinds / uncontracted functions of this tree (of the --arch view) to FILE; '
+                         'without FILE: to the file of that view, contracts/baseline_shapes[_<arch>].json')
     a = ap.parse_args()
     report = {'rules': defaultdict(list)}
     try:
@@ -797,13 +869,21 @@ def main():
         print('EXTRACT-ERROR: %s' % e, file=sys.stderr)
         sys.exit(2)
     open(a.out, 'w').write(text)
-    if a.write_baseline:
-        json.dump(report['shapes'], open(a.write_baseline, 'w'), indent=1, sort_keys=True)
+    if a.write_baseline is not None:
+        # one baseline file per view; writing a view's shapes over another view's committed file is refused
+        target = a.write_baseline or baseline_path(a.contracts, a.arch)
+        for other in set(ARCH_FILES.values()) - {a.arch}:
+            if os.path.abspath(target) == os.path.abspath(baseline_path(a.contracts, other)):
+                print('EXTRACT-ERROR: %s is the baseline of the %s view (this is --arch %s)' % (target, other, a.arch), file=sys.stderr)
+                sys.exit(2)
+        json.dump(dict(report['shapes'], arch=a.arch), open(target, 'w'), indent=1, sort_keys=True)
     if a.report:
         report['rules'] = {k: v for k, v in report['rules'].items()}
         json.dump(report, open(a.report, 'w'), indent=1)
     n = sum(len(v) for v in report['rules'].values())
     print('extracted %d lines, %d rule applications, %d contracts, %d lost anchors' % (text.count('\n'), n, len(report['contracts_spliced']), len(report['lost_anchors'])))
+    if a.arch != 'x86_64':
+        print('view %s: %d overlay entries of the other view skipped' % (a.arch, len(report['skipped_other_arch'])))
 
 
 if __name__ == '__main__':
